@@ -7,7 +7,7 @@ tech = {
  "C01": "runtime monitoring: guard-page arena + catch_unwind + cursor-fuel counter; debug-assertion and overflow-check builds; Miri (scalar, forced AVX2/SSE4.2), ASan, valgrind memcheck, libFuzzer+ASan workload",
  "C02": "runtime monitoring: prefix-chain relation monitor (parse of every prefix on fresh values) and chunked-delivery histories on a reused value",
  "C03": "runtime monitoring: independent linear framing scan vs observed Complete(n)/Partial",
- "C04": "runtime monitoring: pointer-range/order monitor on every returned slice (+ Miri provenance); rustc accept/reject verdict on a corpus of 91 client programs for the static clause",
+ "C04": "runtime monitoring: pointer-range/order monitor on every returned slice (+ Miri provenance); rustc accept/reject verdict on a corpus of 104 client programs for the static clause",
  "C05": "runtime monitoring: field-hygiene predicates on every returned field and on buf[..n]",
  "C06": "runtime monitoring: differential monitor against an executable reference grammar (fresh and reused values, release and debug builds, forced backends)",
  "C07": "runtime monitoring: differential monitor against an executable reference grammar (fresh and reused values, release and debug builds, forced backends)",
@@ -51,11 +51,11 @@ m = {"version": 1,
                "add_only": True},
      "engines": [
          {"name": "hverif", "path": "harness/", "serves_properties": [p["id"] for p in props],
-          "kind_free_text": "Rust harness crate without external dependencies: reference spec, generators G1-G9, guard-page arena, observer, oracles, canaries; binaries worker / coldstart / scale. driver/*.py shards it over 16 cores, builds it per variant (release, debug, overflow-checks, compile-time sse4.2/avx2, SIMD disabled, no_std, ASan, TSan) from the working tree, runs it natively and under Miri / valgrind memcheck / callgrind, merges shard results, writes evidence and replay files."},
+          "kind_free_text": "Rust harness crate without external dependencies: reference spec, generators G1-G10, guard-page arena, observer, oracles, canaries; binaries worker / coldstart / scale. driver/*.py shards it over 16 cores, builds it per variant (release, debug, overflow-checks, compile-time sse4.2/avx2, SIMD disabled, no_std, ASan, TSan) from the working tree, runs it natively and under Miri / valgrind memcheck / callgrind, merges shard results, writes evidence and replay files."},
          {"name": "libfuzzer", "path": "fuzz/", "serves_properties": ["C01", "C02", "C03", "C04", "C05", "C06", "C07", "C08", "C09", "C10", "C11", "C14", "C15", "C16", "C17", "C19"],
           "kind_free_text": "cargo-fuzz target running the property's own per-call oracle on fuzzer-chosen (entry point, config, capacity, backend, buffer); thorough tier only; a workload generator with coverage feedback, not a different technique."},
          {"name": "rustc-verdict corpus", "path": "lifetimes/", "serves_properties": ["C04"],
-          "kind_free_text": "81 minimal client programs that try to let a parsed slice outlive / alias-mutate its buffer or array (must be rejected with a borrow-check error) and 10 documented usage patterns (must compile), compiled against the rlib built from the working tree."}],
+          "kind_free_text": "94 minimal client programs that try to let a parsed slice outlive / alias-mutate its buffer or array (must be rejected with a borrow-check error) and 10 documented usage patterns (must compile), compiled against the rlib built from the working tree."}],
      "checks": checks,
      "notes": "exit 0 = held on everything explored (KNOWN-FINDING lines possible); exit 1 + `VIOLATION property=<id> replay=<path>` = violation with replay file; exit 2 + INCONCLUSIVE = tooling trouble / floor not met. known_findings.json lists one entry, status fixed (C09 zero-digit chunk size, repaired by /repo commit 3f533dc); fixed entries suppress nothing. VERIF_SEED seeds every random choice; VERIF_REPO / VERIF_OUT_ROOT redirect the repository under test and the evidence/replay output (used for mutant and seeded-change runs).",
      "not_applicable": []}
